@@ -470,6 +470,9 @@ func TestVerif(t *testing.T) {
 		t.Fatalf("harness punycode encoder is wrong")
 	}
 
+	postmasterGroup(t, r)
+	concurrentGroup(t, r)
+
 	batches := r.N(800, 20000)
 	const per = 1000
 	for b := 0; b < batches; b++ {
